@@ -42,27 +42,89 @@ Proof.
 Qed.
 Print Assumptions C07_scope_refuted.
 
-(* F7d (open).  "Loading and storing again does not change the stored description" is false when a component gets its
-   repeatInterval from a blueprint (or from its platform override) and not from its own definition: instance() stores the
-   layered repeatInterval but no isRepeat (FlowIRConcrete.__init__ derives isRepeat from the component's OWN
-   repeatInterval only); the concrete built from the stored file finds a repeatInterval in the component itself and
-   derives isRepeat, which the next store writes out.  This is why [clean] asks that the side layers give no
-   repeatInterval. *)
+(* F7d (repaired).  "Loading and storing again does not change the stored description" was false of the pinned instance()
+   ([store_comp_raw_pinned]) when a component gets its repeatInterval from a blueprint (or from its platform override)
+   and not from its own definition: the layered repeatInterval was stored but no isRepeat (FlowIRConcrete.__init__ derives
+   isRepeat from the component's OWN repeatInterval only); the concrete built from the stored file finds a
+   repeatInterval in the component itself and derives isRepeat, which the next store wrote out.  The repaired
+   instance() ([store_comp_raw]) derives isRepeat from the layered repeatInterval: the stored component is a fixed point
+   (the second store is from the reloaded document f_doc fd). *)
 Definition w_rep_doc : doc :=
   {| d_blueprint := JDict [("default", JDict [("global", JDict [(WA, JDict [("repeatInterval", JInt 5)])])])];
      d_variables := JDict [("default", JDict [("global", JDict [("a", JStr "A")])])];
      d_components := [JDict [("name", JStr "c"); ("stage", JInt 0);
                              ("command", JDict [("executable", JStr "echo"); ("arguments", JStr "hi")])]] |}.
+Definition w_rep_comp : jv := hd JNull (d_components w_rep_doc).
 
-Theorem C07_repeat_refuted : exists d envs u p fd fd2 c' c'',
-  flatten_raw d envs u p = Some fd /\
-  flatten_raw (f_doc fd) (JDict [(DEF, JDict (f_envs fd))]) u p = Some fd2 /\
-  d_components (f_doc fd) = [c'] /\ d_components (f_doc fd2) = [c''] /\
-  get_path IR c' = None /\ get_path IR c'' = Some (JBool true) /\ ~ jeq c'' c'.
+Theorem C07_repeat_pinned_refuted : exists d envs u p fd c c' c'' e',
+  flatten_raw d envs u p = Some fd /\ d_components d = [c] /\
+  store_comp_raw_pinned d p c = Some c' /\ store_comp_raw_pinned (f_doc fd) p c' = Some c'' /\
+  get_path IR c' = None /\ get_path IR c'' = Some (JBool true) /\ ~ jeq c'' c' /\
+  d_components (f_doc fd) = [e'] /\ store_comp_raw (f_doc fd) p e' = Some e' /\ get_path IR e' = Some (JBool true).
 Proof.
-  exists w_rep_doc, (JDict []), (JDict []), "p". do 4 eexists.
+  exists w_rep_doc, (JDict []), (JDict []), "p". do 5 eexists.
+  split; [vm_compute; reflexivity|]. split; [reflexivity|].
   split; [vm_compute; reflexivity|]. split; [vm_compute; reflexivity|].
-  split; [reflexivity|]. split; [reflexivity|]. split; [reflexivity|]. split; [reflexivity|].
-  intros H. specialize (H IR). vm_compute in H. discriminate.
+  split; [reflexivity|]. split; [reflexivity|]. split.
+  - intros H. specialize (H IR). vm_compute in H. discriminate.
+  - split; [reflexivity|]. split; vm_compute; reflexivity.
 Qed.
-Print Assumptions C07_repeat_refuted.
+Print Assumptions C07_repeat_pinned_refuted.
+
+(* [clean_repeat] is necessary in C07_config_tree: the PACKAGE's raw layered configuration holds the isRepeat derived from
+   the component's own repeatInterval (here: none), the reloaded document's the one derived from the layered
+   repeatInterval (true) - they differ at workflowAttributes.isRepeat and only there (C07_config_tree_derived); the
+   resolved configurations agree, because resolution derives isRepeat again on both sides. *)
+Theorem C07_config_tree_repeat_refuted : exists dflt d p q sk c c' bg bs vl r r',
+  is_import c = false /\ comp_stage_key c = Some sk /\ store_comp_raw d p c = Some c' /\ clean d p sk c /\
+  fl_bp_global d p = Some bg /\ fl_bp_stage d p sk = Some bs /\ (q = DEF \/ q = p) /\
+  merged_of (opt_layers dflt d p sk c) vl = Some r /\
+  merged_of ([builtin dflt; bg; bs; bg; bs; comp_layer c'] ++ comp_override q c') vl = Some r' /\
+  get_path IR r = None /\ get_path IR r' = Some (JBool true) /\ ~ jeq r' r /\ comp_pre r' = comp_pre r.
+Proof.
+  exists (JDict []), w_rep_doc, "p", DEF, "0", w_rep_comp. do 3 eexists. exists []. do 2 eexists.
+  split; [reflexivity|]. split; [reflexivity|]. split; [vm_compute; reflexivity|].
+  split; [unfold clean; vm_compute; repeat constructor|].
+  split; [vm_compute; reflexivity|]. split; [vm_compute; reflexivity|]. split; [left; reflexivity|].
+  split; [vm_compute; reflexivity|]. split; [vm_compute; reflexivity|].
+  split; [reflexivity|]. split; [reflexivity|]. split.
+  - intros H. specialize (H IR). vm_compute in H. discriminate.
+  - vm_compute. reflexivity.
+Qed.
+Print Assumptions C07_config_tree_repeat_refuted.
+
+(* F7e (repaired).  A stage variable whose value holds %(replica)s together with another reference: the pinned
+   instance(is_primitive=True) ([flatten_pinned]) stored it PARTIALLY resolved - the other reference frozen to its
+   stage-level value - while the running experiment (replicate() -> instance(is_primitive=False)) keeps the value as
+   written and lets every component resolve it in its own scope.  With a component that defines `base` itself, replica 0
+   resolves %(workdir)s to /scratch/run-0 in the package (and in the experiment that wrote the instance) but to
+   /global-base/run-0 in the document the pinned code stored; the repaired instance() ([flatten]) stores the value as
+   written and the reloaded document resolves it like the package. *)
+Definition w_sv_comp : jv :=
+  JDict [("name", JStr "c"); ("stage", JInt 0);
+         ("command", JDict [("executable", JStr "echo"); ("arguments", JStr "%(workdir)s")]);
+         ("variables", JDict [("base", JStr "/scratch"); ("replica", JInt 0)])].
+Definition w_sv_doc : doc :=
+  {| d_blueprint := JDict [];
+     d_variables := JDict [("default", JDict [("global", JDict [("base", JStr "/global-base")]);
+                                              ("stages", JDict [("0", JDict [("workdir", JStr "%(base)s/run-%(replica)s")])])])];
+     d_components := [JDict [("name", JStr "c"); ("stage", JInt 0);
+                             ("command", JDict [("executable", JStr "echo"); ("arguments", JStr "%(workdir)s")]);
+                             ("variables", JDict [("base", JStr "/scratch")])]] |}.
+(* what replica 0 of the component resolves %(workdir)s to, in a document *)
+Definition w_sv_resolved (d : doc) : res string :=
+  interp_string (layer_vars (var_layers d (JDict []) DEF "0" w_sv_comp)) "%(workdir)s".
+
+Theorem C07_stage_replica_pinned_refuted : exists d envs u p fd fdp,
+  flatten d envs u p = Ok fd /\ flatten_pinned d envs u p = Ok fdp /\
+  get_path [DEF; "stages"; "0"; "workdir"] (d_variables (f_doc fdp)) = Some (JStr "/global-base/run-%(replica)s") /\
+  get_path [DEF; "stages"; "0"; "workdir"] (d_variables (f_doc fd)) = Some (JStr "%(base)s/run-%(replica)s") /\
+  w_sv_resolved d = Ok "/scratch/run-0" /\
+  w_sv_resolved (f_doc fdp) = Ok "/global-base/run-0" /\
+  w_sv_resolved (f_doc fd) = Ok "/scratch/run-0".
+Proof.
+  exists w_sv_doc, (JDict []), (JDict []), DEF. do 2 eexists.
+  split; [vm_compute; reflexivity|]. split; [vm_compute; reflexivity|].
+  repeat split; vm_compute; reflexivity.
+Qed.
+Print Assumptions C07_stage_replica_pinned_refuted.
